@@ -968,24 +968,30 @@ theorem wf_stmtsOfOps (ops : List (Op K)) (st st' : UnState K) (ss : List Stmt) 
         · exact wf_stmtOfOp st st1 op _ (hne op (by simp)) h1
         · exact ih st1 ss' (fun y hy => hne y (List.mem_cons_of_mem _ hy)) h2 x hx
 
-theorem wf_declItem (d : ArrDecl K) (hd : d.OK) : d.item.WFp := by
-  refine ⟨rfl, by intro sh hsh; cases hsh; simp, ?_⟩
+theorem wf_declItem_rows (name : String) (ty : VarType) (shape : Option (List String)) (r c : Nat)
+    (flat : List (SExpr K)) (hd : ArrDecl.OK (⟨name, .int, r, c, flat⟩ : ArrDecl K) ∨ True)
+    (hlen : flat.length = r * c) (hc : 0 < c) (hshape : ∀ sh, shape = some sh → sh ≠ []) :
+    (Item.arr ty ⟨0, 0⟩ (plainName name) shape (.rows ((chunk c r flat).map fun row => row.map exprOfS))).WFp := by
+  refine ⟨rfl, hshape, ?_⟩
   intro rs hrs
   simp only [ArrBody.rows.injEq] at hrs
   subst hrs
   intro row hrow
   obtain ⟨nr, hnr, rfl⟩ := List.mem_map.mp hrow
-  have hlen := chunk_row_len d.c d.r d.flat hd.len nr hnr
+  have hl := chunk_row_len c r flat hlen nr hnr
   refine ⟨?_, ?_⟩
   · intro hnil
     have : nr = [] := by simpa using hnil
-    rw [this] at hlen
-    have := hd.c_pos
-    simp at hlen
+    rw [this] at hl
+    simp at hl
     omega
   · intro e he
     obtain ⟨x, _, rfl⟩ := List.mem_map.mp he
     exact exprOfS_WF x
+
+theorem wf_declItem (d : ArrDecl K) (hd : d.OK) : d.item.WFp :=
+  wf_declItem_rows d.name (declType d.dt d.flat) (some [toString d.r, toString d.c]) d.r d.c d.flat (Or.inr trivial)
+    hd.len hd.c_pos (by intro sh hsh; cases hsh; simp)
 
 /-- **Text level.** The token sequence of the script written for a program, under any layout of
 line ends, parses back to exactly that script. -/
